@@ -68,6 +68,31 @@ static int pdst(void) {
   return 1;
 }
 
+typedef void (*pbin2)(lp_polynomial_t*, lp_polynomial_t*, const lp_polynomial_t*, const lp_polynomial_t*);
+static void w_ppcont(lp_polynomial_t* pp, lp_polynomial_t* cont, const lp_polynomial_t* a, const lp_polynomial_t* unused) { (void) unused; lp_polynomial_pp_cont(pp, cont, a); }
+/* pdst2 <op> <A> <B> <priorD> <priorR>: operations with two output operands */
+static int pdst2(void) {
+  const char* op = vtok[1];
+  pbin2 f = NULL;
+  if (!strcmp(op, "divrem")) f = lp_polynomial_divrem; else if (!strcmp(op, "pdivrem")) f = lp_polynomial_pdivrem;
+  else if (!strcmp(op, "spdivrem")) f = lp_polynomial_spdivrem; else if (!strcmp(op, "ppcont")) f = w_ppcont;
+  else return 0;
+  lp_polynomial_t* A = pio_new(vtok[2]); lp_polynomial_t* B = pio_new(vtok[3]);
+  { lp_polynomial_t* d = lp_polynomial_new(pio_ctx); lp_polynomial_t* r = lp_polynomial_new(pio_ctx);
+    f(d, r, A, B); pio_print(d); putchar(','); pio_print(r); putchar(' '); lp_polynomial_delete(d); lp_polynomial_delete(r); }
+  { lp_polynomial_t* d = pio_new(vtok[4]); lp_polynomial_t* r = pio_new(vtok[5]);
+    f(d, r, A, B); pio_print(d); putchar(','); pio_print(r); putchar(' '); lp_polynomial_delete(d); lp_polynomial_delete(r); }
+  { lp_polynomial_t* d = pio_new(vtok[5]); lp_polynomial_t* r = pio_new(vtok[4]);
+    f(d, r, A, B); pio_print(d); putchar(','); pio_print(r); putchar(' '); lp_polynomial_delete(d); lp_polynomial_delete(r); }
+  { lp_polynomial_t* d = pio_new(vtok[2]); lp_polynomial_t* r = pio_new(vtok[3]);   /* D is A, R is B */
+    f(d, r, d, r); pio_print(d); putchar(','); pio_print(r); putchar(' '); lp_polynomial_delete(d); lp_polynomial_delete(r); }
+  { lp_polynomial_t* d = pio_new(vtok[3]); lp_polynomial_t* r = pio_new(vtok[2]);   /* D is B, R is A */
+    f(d, r, r, d); pio_print(d); putchar(','); pio_print(r); lp_polynomial_delete(d); lp_polynomial_delete(r); }
+  printf(" in:"); pio_print(A); putchar(' '); pio_print(B);
+  lp_polynomial_delete(A); lp_polynomial_delete(B);
+  return 1;
+}
+
 typedef void (*vbin)(lp_value_t*, const lp_value_t*, const lp_value_t*);
 static void wv_pow(lp_value_t* r, const lp_value_t* a) { lp_value_pow(r, a, g_n); }
 static int vdst(void) {
@@ -118,6 +143,14 @@ static int idst(void) {
   lp_interval_t A, B, r;
   mkinterval(&A, 2); mkinterval(&B, 6);
   int isadd = !strcmp(op, "add"), ismul = !strcmp(op, "mul"), ispow = !strcmp(op, "pow");
+  if (!strcmp(op, "assign")) {
+    /* lp_interval_assign / construct_copy / swap into outputs of every shape; source A (then B) */
+    const char* kinds[3] = {"point", "full", "proper"};
+    for (int k = 0; k < 3; ++k) { prior_interval(&r, kinds[k]); lp_interval_assign(&r, &A); pinterval(&r); putchar(' ');
+      lp_interval_assign(&r, &B); lp_interval_assign(&r, &r); lp_interval_assign(&r, &A); pinterval(&r); lp_interval_destruct(&r); putchar(' '); }
+    lp_interval_construct_copy(&r, &A); pinterval(&r); lp_interval_destruct(&r);
+    lp_interval_destruct(&A); lp_interval_destruct(&B); return 1;
+  }
   if (!isadd && !ismul && !ispow) { lp_interval_destruct(&A); lp_interval_destruct(&B); return 0; }
   unsigned n = ispow ? (unsigned) atoi(vtok[11]) : 0;
 #define IOP(R, X, Y) do { if (isadd) lp_interval_add(R, X, Y); else if (ismul) lp_interval_mul(R, X, Y); else lp_interval_pow(R, X, n); } while (0)
@@ -168,6 +201,10 @@ static int rc(void) {
       lp_polynomial_add(p, p, q); lp_polynomial_mul(p, p, q);
       lp_polynomial_destruct(q); free(q); lp_integer_destruct(&one);
       polys[npoly++] = p; i += 2; }
+    else if (!strcmp(t, "up")) { int j = atoi(vtok[i+1]); lp_polynomial_t* pj = polys[j];
+      lp_polynomial_t* tmp = lp_polynomial_new_copy(pj);
+      lp_polynomial_add(pj, pj, tmp); lp_polynomial_mul(pj, tmp, pj); lp_polynomial_assign(pj, tmp); lp_polynomial_neg(pj, pj);
+      lp_polynomial_delete(tmp); i += 2; }
     else if (!strcmp(t, "dp")) { int j = atoi(vtok[i+1]); lp_polynomial_delete(polys[j]); polys[j] = NULL; i += 2; }
     else return 0;
   }
@@ -185,6 +222,7 @@ int main(void) {
     int ok = 0;
     if (vntok == 0) { end_case(); continue; }
     if (is_op("pdst")) ok = pdst();
+    else if (is_op("pdst2")) ok = pdst2();
     else if (is_op("vdst")) ok = vdst();
     else if (is_op("idst")) ok = idst();
     else if (is_op("rc")) ok = rc();
